@@ -1,6 +1,7 @@
 import MuscleModel.Wire.Proofs2
 import MuscleModel.Wire.MoreProofs
 import MuscleModel.Wire.ChecksumProofs
+import MuscleModel.Wire.EqProofs
 
 /-!
 # C01 — Message serialisation round-trips exactly and its size is exact
@@ -274,5 +275,116 @@ example : checksumMsg (tripMsg sample) = 2048938212 := by rw [checksum_trip samp
 
 example : tripMsg sample ≠ sample ∧ checksumMsg (.mk 42 sample.fields.reverse) = checksumMsg sample :=
   ⟨by simp [sample, tripMsg, tripFields], checksum_order_independent 42 _ _ (List.reverse_perm _)⟩
+
+/-! ## Equality (`Message::operator==`) is unchanged by the trip
+
+`msgEq` (`Wire/Ops.lean`) models `operator==`: `what == rhs.what && GetNumNames() == rhs.GetNumNames() &&
+FieldsAreSubsetOf(rhs, true)`, with `MessageField::IsEqualTo` comparing type code, item count and items (IEEE
+`==` on float/double/point/rect items, whatever the inline/array representation of the two sides).  Lemmas:
+`Wire/EqProofs.lean`.
+
+Non-flattenable (pointer/tag) fields: `GetNumNames()` counts EVERY entry, pointer and tag fields included, and
+`FieldsAreSubsetOf` looks every one of this Message's entries up in the other.  `Flatten` skips those fields, so
+the parsed Message has fewer names than the original and `==` is false in both directions (first counter-example
+below: `sample`, which holds a pointer field).  The theorems are therefore stated for Messages without
+non-flattenable fields at any nesting level (`hasOpaque m = false`); no other hypothesis is needed for the
+congruence — not even well-formedness. -/
+
+/-- Replacing the left operand by its parse does not change the comparison, against any Message. -/
+theorem eq_trip_left (a b : Msg) (ha : hasOpaque a = false) : msgEq (tripMsg a) b = msgEq a b :=
+  msgEq_trip_left a ha b
+
+/-- Replacing the right operand by its parse does not change the comparison, against any Message. -/
+theorem eq_trip_right (a b : Msg) (hb : hasOpaque b = false) : msgEq a (tripMsg b) = msgEq a b :=
+  msgEq_trip_right b hb a
+
+/-- The parsed Message compares equal to the original, in both directions, whenever the original compares
+    equal to itself (i.e. holds no NaN: `msgEq_refl_of_nanfree`). -/
+theorem eq_trip (m : Msg) (ho : hasOpaque m = false) (hs : msgEq m m = true) :
+    msgEq (tripMsg m) m = true ∧ msgEq m (tripMsg m) = true := by
+  rw [eq_trip_left m m ho, eq_trip_right m m ho]; exact ⟨hs, hs⟩
+
+/-- …stated on the parser. -/
+theorem eq_decode_encode (mx : Nat) (m : Msg) (rest : Bytes) (h : wfMsg m) (hd : depthMsg m ≤ mx)
+    (ho : hasOpaque m = false) (hs : msgEq m m = true) :
+    ∃ m', decode mx (encode m ++ rest) = some m' ∧ msgEq m' m = true ∧ msgEq m m' = true :=
+  ⟨tripMsg m, decode_encode_append mx m rest h hd, eq_trip m ho hs⟩
+
+/-- "Equality is unchanged by the trip": two Messages compare the same before and after both went through
+    serialisation and parsing (no self-equality hypothesis needed: NaN-holding Messages stay unequal). -/
+theorem eq_trip_iff (a b : Msg) (ha : hasOpaque a = false) (hb : hasOpaque b = false) :
+    msgEq (tripMsg a) (tripMsg b) = msgEq a b := by
+  rw [eq_trip_left a (tripMsg b) ha, eq_trip_right a b hb]
+
+/-- Self-equality characterised: a well-formed Message (without pointer/tag fields) compares equal to itself
+    iff no float, double, point or rect item at any nesting level is a NaN bit pattern. -/
+theorem msgEq_refl_of_nanfree (m : Msg) (hw : wfMsg m) (ho : hasOpaque m = false) :
+    msgEq m m = true ↔ nanFreeMsg m = true := by
+  rw [msgEq_self m hw ho]
+
+/-- A one-item field compares the same in the inline and in the array representation (`IsEqualTo` handles the
+    mixed cases explicitly; the model's `fieldEq` never looks at the tag): equal iff the item is equal to itself. -/
+theorem eq_rep_independent (tc : Nat) (x : Bytes) (m : Msg) :
+    fieldEq (.fixed tc .inl [x]) (.fixed tc .arr [x]) = itemNanFree tc x ∧
+    fieldEq (.strs .inl [x]) (.strs .arr [x]) = true ∧
+    fieldEq (.raws tc .inl [x]) (.raws tc .arr [x]) = true ∧
+    fieldEq (.msgs .inl [m]) (.msgs .arr [m]) = msgEq m m := by
+  simp [fieldEq, listEqBy, msgsEq, itemEq_self]
+
+/-- …and in general the representation tags of the two sides are irrelevant to the comparison. -/
+theorem eq_rep_irrelevant (tc tc' : Nat) (r r' s s' : Rep) (xs ys : List Bytes) (ms ns : List Msg) :
+    fieldEq (.fixed tc r xs) (.fixed tc' r' ys) = fieldEq (.fixed tc s xs) (.fixed tc' s' ys) ∧
+    fieldEq (.strs r xs) (.strs r' ys) = fieldEq (.strs s xs) (.strs s' ys) ∧
+    fieldEq (.raws tc r xs) (.raws tc' r' ys) = fieldEq (.raws tc s xs) (.raws tc' s' ys) ∧
+    fieldEq (.msgs r ms) (.msgs r' ns) = fieldEq (.msgs s ms) (.msgs s' ns) := by
+  simp [fieldEq]
+
+/-- The comparison of a Message with its parse is the same in both directions (both are `msgEq m m`). -/
+theorem eq_trip_symm (m : Msg) (ho : hasOpaque m = false) : msgEq (tripMsg m) m = msgEq m (tripMsg m) := by
+  rw [eq_trip_left m m ho, eq_trip_right m m ho]
+
+/-! Non-vacuity and counter-examples. -/
+
+/-- Counter-example for Messages WITH a non-flattenable field: `sample` holds a pointer field, its parse does
+    not, `GetNumNames()` differs (4 vs 3) and `==` is false in both directions. -/
+example : hasOpaque sample = true ∧ msgEq sample sample = true ∧
+    msgEq (tripMsg sample) sample = false ∧ msgEq sample (tripMsg sample) = false := by
+  refine ⟨by decide, ?_⟩
+  simp [sample, tripMsg, tripFields, tripMsgs, repOf, msgEq, fieldsSubset, lookupField, fieldEq, listEqBy, itemEq,
+    msgsEq, tcInt32, tcBool, tcDouble, tcFloat, tcPoint, tcRect, tcPointer]
+
+/-- `sample` without its pointer field -/
+def sampleFlat : Msg :=
+  .mk 42 [ ([0x61], .fixed tcInt32 .inl [[1, 0, 0, 0]]),
+           ([0x62], .strs .arr [[0x68, 0x69], []]),
+           ([0x63], .msgs .inl [.mk 7 [([0x64], .fixed tcBool .arr [[1]])]]) ]
+
+theorem sampleFlat_selfEq : msgEq sampleFlat sampleFlat = true := by
+  simp [sampleFlat, msgEq, fieldsSubset, lookupField, fieldEq, listEqBy, itemEq, msgsEq,
+    tcInt32, tcBool, tcDouble, tcFloat, tcPoint, tcRect]
+
+example : hasOpaque sampleFlat = false ∧ msgEq sampleFlat sampleFlat = true ∧ nanFreeMsg sampleFlat = true ∧
+    tripMsg sampleFlat ≠ sampleFlat := by
+  refine ⟨by decide, sampleFlat_selfEq, by decide, by simp [sampleFlat, tripMsg, tripFields, tripMsgs, repOf]⟩
+
+example : msgEq (tripMsg sampleFlat) sampleFlat = true ∧ msgEq sampleFlat (tripMsg sampleFlat) = true :=
+  eq_trip sampleFlat (by decide) sampleFlat_selfEq
+
+/-- a Message holding a float NaN (0x7FC00000) is not equal to itself, before and after the trip -/
+def nanMsg : Msg := .mk 1 [([0x61], .fixed tcFloat .inl [[0, 0, 0xC0, 0x7F]])]
+
+example : nanFreeMsg nanMsg = false ∧ msgEq nanMsg nanMsg = false ∧
+    msgEq (tripMsg nanMsg) (tripMsg nanMsg) = false := by
+  refine ⟨by decide, ?_⟩
+  simp [nanMsg, tripMsg, tripFields, repOf, msgEq, fieldsSubset, lookupField, fieldEq, listEqBy, itemEq, feq32,
+    isNaN32, leVal, tcFloat]
+
+/-- `msgEq` is NOT symmetric on arbitrary `Msg` values: the value type allows a repeated field name, which a
+    real Message (a hash table keyed by name) cannot hold; with one, "same count and subset" is one-directional.
+    Symmetry for Messages with distinct names is not proved here. -/
+example :
+    msgEq (.mk 0 [([1], .strs .arr []), ([1], .strs .arr [])]) (.mk 0 [([1], .strs .arr []), ([2], .strs .arr [])]) = true ∧
+    msgEq (.mk 0 [([1], .strs .arr []), ([2], .strs .arr [])]) (.mk 0 [([1], .strs .arr []), ([1], .strs .arr [])]) = false := by
+  simp [msgEq, fieldsSubset, lookupField, fieldEq]
 
 end Muscle.Props.C01
